@@ -86,8 +86,9 @@ class NMEA2000Encoder:
 
         return frame_id
 
-    def _encode(self, nmea2000Message: NMEA2000Message) -> list[bytes]:
-        """Construct a single NMEA 2000 TCP packet from PGN, source ID, priority, and CAN data."""
+    @staticmethod
+    def _check_header(nmea2000Message: NMEA2000Message) -> None:
+        """Reject addressing that does not fit the frame header, for every wire format alike."""
         if not (0 <= nmea2000Message.priority <= 7):
             raise ValueError("Priority must be between 0 and 7")
         if not (0 <= nmea2000Message.source <= 255):
@@ -96,6 +97,10 @@ class NMEA2000Encoder:
             raise ValueError("PGN ID must be between 0 and 0x3FFFF")
         if not (0 <= nmea2000Message.destination <= 255):  # would otherwise spill into the PGN bits of the frame id
             raise ValueError("Destination must be between 0 and 255")
+
+    def _encode(self, nmea2000Message: NMEA2000Message) -> list[bytes]:
+        """Construct a single NMEA 2000 TCP packet from PGN, source ID, priority, and CAN data."""
+        NMEA2000Encoder._check_header(nmea2000Message)
 
         can_data_bytes = self._call_encode_function(nmea2000Message)
 
@@ -145,6 +150,8 @@ class NMEA2000Encoder:
     
     def encode_actisense(self, nmea2000Message: NMEA2000Message) -> str:
         """Convert an Nmea2000Message object into an Actisense packet string."""
+        # out-of-range addressing is rejected as in the other formats, not cut to the width of the text fields
+        NMEA2000Encoder._check_header(nmea2000Message)
         # Extract necessary fields
         priority = nmea2000Message.priority & 0xF
         dest = nmea2000Message.destination & 0xFF
